@@ -43,21 +43,21 @@ def generate(tier, rng):
     n = 1200 if tier == "quick" else 40000
     for _ in range(n):
         sc = gen.pick_scale(rng, decimal_share=0.3)
-        A = gen.random_itier(rng, tmax=50, maxn=7, name="A", long_p=0.015)
+        A = gen.random_itier(rng, tmax=50, maxn=7, name="A", long_p=0.05)
         u = rng.random()
         if u < 0.1:
             B = dict(A, name=rng.choice(["B", "A"]))      # the very same intervals (also under the very same name)
         elif u < 0.2:
             B = {"kind": "I", "name": "B", "entries": [], "min": 0, "max": 50}
         else:
-            B = gen.random_itier(rng, tmax=rng.choice([50, 70]), maxn=7, name="B", long_p=0.015)
+            B = gen.random_itier(rng, tmax=rng.choice([50, 70]), maxn=7, name="B", long_p=0.05)
         args = {"other": B}
         if B == A and rng.random() < 0.6:
             args["same"] = True                    # the operand IS the receiver: A.union(A) is judged like any other pair
         cases.append({"op": rng.choice(list(OPS)), "tier": A, "args": args, "scale": sc})
     for _ in range(300 if tier == "quick" else 8000):
-        A = gen.random_ptier(rng, tmax=20, maxn=6, name="A", long_p=0.015)
-        B = gen.random_ptier(rng, tmax=25, maxn=6, name="B", long_p=0.015)
+        A = gen.random_ptier(rng, tmax=20, maxn=6, name="A", long_p=0.05)
+        B = gen.random_ptier(rng, tmax=25, maxn=6, name="B", long_p=0.05)
         args = {"other": B}
         if rng.random() < 0.06:
             args = {"other": A, "same": True}
